@@ -12,7 +12,13 @@ import (
 func (core *JApiCore) scanProject() (je *jerr.JApiError) {
 	defer func() {
 		// We might get an error during scanning included file, and we should return
-		// correct error in that case.
+		// correct error in that case. The stack describes how the file which is
+		// being scanned right now was reached: it says nothing about an error
+		// located in another file (a directive of the including file which was still
+		// pending when the INCLUDE was met fails with its own include trace).
+		if je != nil && je.File != core.scanner.File() {
+			return
+		}
 		core.scannersStack.AddIncludeTraceToError(je)
 	}()
 
